@@ -4,4 +4,4 @@ Driver of the C02 model (index ⟷ document agreement): the shared collection li
 `Drv/Coll.lean`.
 -/
 def main : IO Unit :=
-  AndaVerif.Drv.lineLoop (AndaVerif.Collection.init [], false) AndaVerif.DrvColl.stepLine
+  AndaVerif.Drv.lineLoop (AndaVerif.Collection.dinit [], AndaVerif.DrvColl.Pending.none) AndaVerif.DrvColl.stepLine
